@@ -26,18 +26,19 @@ type TVal struct {
 }
 
 type evalCtx struct {
-	ex      *Exec
-	fr      *Frame
-	st      *State
-	old     *State
-	env     map[string]TVal
-	lets    map[string]Expr
-	results []TVal
-	pkg     *types.Package
-	depth   int
-	bound   map[string]bool
-	rawMaps bool // map lookups without the presence test (pattern terms)
-	goEq    bool // == on aggregates with Go's IEEE semantics for float fields
+	ex            *Exec
+	fr            *Frame
+	st            *State
+	old           *State
+	env           map[string]TVal
+	lets          map[string]Expr
+	results       []TVal
+	pkg           *types.Package
+	depth         int
+	bound         map[string]bool
+	rawMaps       bool // map lookups without the presence test (pattern terms)
+	goEq          bool // == on aggregates with Go's IEEE semantics for float fields
+	cellsFallback *State
 }
 
 type evalErr struct{ msg string }
@@ -118,6 +119,11 @@ func (c *evalCtx) boolTerm(e Expr) string {
 func (c *evalCtx) withState(st *State) *evalCtx {
 	n := *c
 	n.st = st
+	if n.cellsFallback == nil {
+		// locals that did not exist yet in the older state (old / atlock) are
+		// read from the state the clause is evaluated in
+		n.cellsFallback = c.st
+	}
 	return &n
 }
 
@@ -269,9 +275,18 @@ func (c *evalCtx) lookupIdent(name string) (TVal, bool) {
 			}
 		}
 		var cands []*ssa.Alloc
+		cellSrc := c.st
 		for a := range c.st.cells {
 			if a.Parent() == c.fr.fn && a.Comment == base && !c.ex.invLoopBlocks[a.Block()] {
 				cands = append(cands, a)
+			}
+		}
+		if len(cands) == 0 && c.cellsFallback != nil {
+			cellSrc = c.cellsFallback
+			for a := range cellSrc.cells {
+				if a.Parent() == c.fr.fn && a.Comment == base && !c.ex.invLoopBlocks[a.Block()] {
+					cands = append(cands, a)
+				}
 			}
 		}
 		order := func(a *ssa.Alloc) int {
@@ -287,7 +302,7 @@ func (c *evalCtx) lookupIdent(name string) (TVal, bool) {
 		if skip < len(cands) {
 			best := cands[skip]
 			t := best.Type().Underlying().(*types.Pointer).Elem()
-			return TVal{V: c.st.cells[best], T: t, A: &Addr{Kind: ACell, Cell: best, ArrLen: -1}}, true
+			return TVal{V: cellSrc.cells[best], T: t, A: &Addr{Kind: ACell, Cell: best, ArrLen: -1}}, true
 		}
 		// escaping locals (heap allocs) by name
 		for v, rv := range c.fr.regs {
@@ -843,6 +858,28 @@ func (c *evalCtx) evalCall(x *ECall) TVal {
 			c.errf("fresh(): not a reference")
 		}
 		return boolTV(and(not(eq(r, z64())), not(sel(c.old.alloc, r))))
+	case "filesaved":
+		// filesaved(name): identity of the bytes last written to the file of that name
+		nm := arg(0)
+		cur := c.ex.comp(c.st, ghostFileKey, ghostFileSort())
+		return TVal{V: Sc{sel(sel(cur, z64()), sc(nm.V).T), BV(64)}, T: types.Typ[types.Uint64]}
+	case "mapid":
+		// mapid(m): abstract identity of a map's content (domain and values)
+		m := arg(0)
+		mi := c.ex.mapInfo(m.T)
+		ref := sc(m.V).T
+		var sorts []Sort
+		var terms []string
+		sorts = append(sorts, ArrS(mi.ksort, SBool))
+		terms = append(terms, c.ex.mapDom(c.st, mi, ref))
+		for _, l := range leavesOf(c.ex.mapValTree(c.st, mi)) {
+			_, inner := l.S.ArrParts()
+			sorts = append(sorts, inner)
+			terms = append(terms, sel(l.T, ref))
+		}
+		fn := "MapId_" + typeKey(m.T.Underlying())
+		c.ex.vc.DeclareFun(fn, sorts, BV(64))
+		return TVal{V: Sc{app(fn, terms...), BV(64)}, T: types.Typ[types.Uint64]}
 	case "visitedCount":
 		var ck string
 		if c.ex.curRange != nil {
@@ -959,7 +996,7 @@ func (c *evalCtx) evalCall(x *ECall) TVal {
 		return TVal{V: Sc{resize(s.T, s.S.Width(), 64, x.Fn == "sext64"), BV(64)}, T: t}
 	case "bytesid":
 		v := arg(0)
-		return TVal{V: Sc{c.ex.bytesId(c.st, v.V, v.T), BV(64)}, T: types.Typ[types.Uint64]}
+		return TVal{V: Sc{c.ex.bytesIdAny(c.st, v.V, v.T), BV(64)}, T: types.Typ[types.Uint64]}
 	case "Verify":
 		pk, msg, sig := arg(0), arg(1), arg(2)
 		return boolTV(app("Verify", sc(pk.V).T, sc(msg.V).T, sc(sig.V).T))
